@@ -972,6 +972,9 @@ class ProcessSyncGroup(SyncGroup, SimulatedEBPF):
         self.process = self.ctx.Process(target=self.subprocess_run)
         self.process.start()
         self.task = ensure_future(self.wait_for_process())
+        # the subprocess must also stop if the task never got to run
+        self.task.add_done_callback(
+            lambda _: setattr(self.runningValue, "value", False))
         return self.task
 
 
